@@ -333,6 +333,8 @@ pub enum CtlStep {
     Sleep { ms: u32 },
     /// Sleep until the given (controller-local) time since start
     SleepUntil { ms: u32 },
+    /// Abandon the rest of the script if it is later than the given (controller-local) time
+    StopIfAfter { ms: u32 },
 }
 
 pub struct ControllerCtx {
@@ -528,6 +530,12 @@ async fn controller_script<C: Crypto>(matter: &Matter<'_>, crypto: &C, ctx: &Con
     let mut commissioner = Commissioner::new(matter, crypto, fab_idx, &mut noc_generator, &mut commissioner_buf);
 
     for step in &ctx.script {
+        if let CtlStep::StopIfAfter { ms } = step {
+            if embassy_time::Instant::now().as_millis() >= *ms as u64 {
+                break;
+            }
+            continue;
+        }
         let name = match step {
             CtlStep::Commission { .. } => "commission",
             CtlStep::CommissionPhase1 { .. } => "commission_phase1",
@@ -541,6 +549,7 @@ async fn controller_script<C: Crypto>(matter: &Matter<'_>, crypto: &C, ctx: &Con
             CtlStep::Toggle { .. } => "toggle",
             CtlStep::Sleep { .. } => "sleep",
             CtlStep::SleepUntil { .. } => "sleep",
+            CtlStep::StopIfAfter { .. } => "stop",
         };
         log_ev(&ctx.log, ctx.node, ctx.incarnation, FullKind::Step { name, result: None });
         let r: Result<(), Error> = match step {
@@ -700,6 +709,7 @@ async fn controller_script<C: Crypto>(matter: &Matter<'_>, crypto: &C, ctx: &Con
                 Timer::at(embassy_time::Instant::from_millis(*ms as u64)).await;
                 Ok(())
             }
+            CtlStep::StopIfAfter { .. } => Ok(()),
         };
         log_ev(
             &ctx.log,
